@@ -132,6 +132,20 @@ for _op in ('eq', 'ne', 'lt', 'le', 'gt', 'ge'):
     _make_compare_variant(_op)
 
 
+def _make_compare_self_variant(opname):
+    class spec(elementwise_compare):
+        __doc__ = (f'C07/C06 (`v {opname} v`, both operands the SAME object, concrete operator `operator.{opname}`): still '
+                   'Python\'s own comparison element by element - an element that does not equal itself (NaN) or is None '
+                   'gives what the scalar comparison gives, so identity of the operands is no shortcut.')
+        params = dict(elementwise_compare.params, other='same:self', op='op:' + opname)
+    spec.__name__ = 'elementwise_compare_self_' + opname
+    contract('serif.vector.Vector._elementwise_compare', props=['C07', 'C06'], variant='self-op-' + opname)(spec)
+
+
+for _op in ('eq', 'ne', 'lt', 'le', 'gt', 'ge'):
+    _make_compare_self_variant(_op)
+
+
 def _make_elementwise_variant(opname):
     class spec(elementwise_operation):
         __doc__ = elementwise_operation.__doc__ + f'  (Variant with the concrete operator `operator.{opname}`: branches that depend on which operator is applied are explored.)'
